@@ -526,6 +526,12 @@ class Interp:
         # chained: a < b < c  ==  (a < b) and (b < c), each operand evaluated once
         states, raises = self.eval_seq([node.left] + node.comparators, path)
         out = list(raises)
+        if path.comp_depth > 0:
+            # inside a comprehension conditions stay symbolic (no forking): ('boolop', 'and', (cmp, cmp, ...))
+            for p, vals in states:
+                terms = tuple(canon_cmp(OPNAME[type(op)], vals[i], vals[i + 1]) for i, op in enumerate(node.ops))
+                out.append(("value", p, ("boolop", "and", terms)))
+            return out
         for p, vals in states:
             frontier = [p]
             results = []
@@ -553,6 +559,18 @@ class Interp:
 
     def e_BoolOp(self, node, path):
         is_and = isinstance(node.op, ast.And)
+        if path.comp_depth > 0:
+            states, raises = self.eval_seq(node.values, path)
+            out = list(raises)
+            for p, vals in states:
+                flat = []
+                for v in vals:
+                    if v[0] == "boolop" and v[1] == ("and" if is_and else "or"):
+                        flat.extend(v[2])
+                    else:
+                        flat.append(v)
+                out.append(("value", p, ("boolop", "and" if is_and else "or", tuple(flat))))
+            return out
         results = []
         frontier = [path]
         for i, sub in enumerate(node.values):
@@ -706,6 +724,13 @@ class Interp:
         return self.eval_call(node, path, awaited=False)
 
     def eval_call(self, node: ast.Call, path, awaited):
+        if isinstance(node.func, ast.Attribute) and node.func.attr == "reverse" and not node.args and not node.keywords and isinstance(node.func.value, ast.Name):
+            key = ("sym", node.func.value.id)
+            cur = path.env.get(key)
+            if cur is not None and cur[0] in ("comp", "list", "call", "binop"):
+                path.env[key] = ("call", ("glob", "ext:builtins.reversed"), (cur,), (), 0)
+                path.ev("inplace-reverse", key[1], getattr(node, "lineno", 0))
+                return [("value", path, NONE)]
         nodes = [node.func] + list(node.args) + [kw.value for kw in node.keywords]
         states, raises = self.eval_seq(nodes, path)
         out = list(raises)
@@ -1111,9 +1136,61 @@ class Interp:
         return [(True, path), (False, p2)]
 
     # ------------------------------------------------------------------ statements
+    @staticmethod
+    def desugar(stmts):
+        """
+        `acc = []` + `for t in it: [if c:] acc.append(e)`   ->  acc = [e for t in it if c]
+        `acc = {}` + `for t in it: [if c:] acc[k] = v`      ->  acc = {k: v for t in it if c}
+        (accumulator not otherwise used inside the loop; intervening statements must not mention it)
+        """
+        out = list(stmts)
+        i = 0
+        while i < len(out):
+            st = out[i]
+            name = None
+            kind = None
+            if isinstance(st, ast.Assign) and len(st.targets) == 1 and isinstance(st.targets[0], ast.Name):
+                v = st.value
+                if (isinstance(v, ast.List) and not v.elts) or (isinstance(v, ast.Call) and isinstance(v.func, ast.Name) and v.func.id == "list" and not v.args):
+                    name, kind = st.targets[0].id, "list"
+                elif (isinstance(v, ast.Dict) and not v.keys) or (isinstance(v, ast.Call) and isinstance(v.func, ast.Name) and v.func.id == "dict" and not v.args and not v.keywords):
+                    name, kind = st.targets[0].id, "dict"
+            if name is not None:
+                j = i + 1
+                while j < len(out) and not isinstance(out[j], (ast.For,)) and not any(isinstance(x, ast.Name) and x.id == name for x in ast.walk(out[j])) and isinstance(out[j], (ast.Assign, ast.AnnAssign, ast.Expr)):
+                    j += 1
+                if j < len(out) and isinstance(out[j], ast.For) and not out[j].orelse and len(out[j].body) == 1:
+                    loop = out[j]
+                    inner = loop.body[0]
+                    conds = []
+                    while isinstance(inner, ast.If) and not inner.orelse and len(inner.body) == 1:
+                        conds.append(inner.test)
+                        inner = inner.body[0]
+                    comp = None
+                    uses = lambda n: any(isinstance(x, ast.Name) and x.id == name for x in ast.walk(n))  # noqa: E731
+                    if kind == "list" and isinstance(inner, ast.Expr) and isinstance(inner.value, ast.Call) and isinstance(inner.value.func, ast.Attribute) and inner.value.func.attr == "append" and isinstance(inner.value.func.value, ast.Name) and inner.value.func.value.id == name and len(inner.value.args) == 1:
+                        e = inner.value.args[0]
+                        if not uses(e) and not uses(loop.iter) and not any(uses(c) for c in conds):
+                            comp = ast.ListComp(elt=e, generators=[ast.comprehension(target=loop.target, iter=loop.iter, ifs=conds, is_async=0)])
+                    elif kind == "dict" and isinstance(inner, ast.Assign) and len(inner.targets) == 1 and isinstance(inner.targets[0], ast.Subscript) and isinstance(inner.targets[0].value, ast.Name) and inner.targets[0].value.id == name:
+                        k, v = inner.targets[0].slice, inner.value
+                        if not uses(k) and not uses(v) and not uses(loop.iter) and not any(uses(c) for c in conds):
+                            comp = ast.DictComp(key=k, value=v, generators=[ast.comprehension(target=loop.target, iter=loop.iter, ifs=conds, is_async=0)])
+                    if comp is not None:
+                        new = ast.Assign(targets=[ast.Name(id=name, ctx=ast.Store())], value=comp)
+                        ast.copy_location(new, loop)
+                        ast.fix_missing_locations(new)
+                        for x in ast.walk(new):
+                            x._file = getattr(loop, "_file", None)
+                        out = out[:i] + out[i + 1 : j] + [new] + out[j + 1 :]
+                        continue
+            i += 1
+        return out
+
     def exec_block(self, stmts, path) -> List[Outcome]:
         outcomes = []
         frontier = [path]
+        stmts = self.desugar(stmts)
         for st in stmts:
             nxt = []
             for p in frontier:
